@@ -8,26 +8,43 @@
   Modelled: `list.sort` is a stable sort (insertion sort here; a stable sort's result is unique).
 -/
 import DeepModel.Extracted.Guards
+import DeepModel.Model.PluginsBase
 
 namespace Plugins
 open Extracted.Plugins
 
+/-- what `order()` of a constructed plugin does -/
+inductive Order where
+  | value (o : Option Int)    -- returns an int, or `None`
+  | unusable                  -- raises, or returns something that is not a number
+deriving DecidableEq, Repr
+
 /-- one configured plugin name, with what happens when the loader tries it -/
 structure Spec where
   id : Nat
-  importOk : Bool          -- module imports and has the class
-  ctorOk : Bool            -- the constructor returns
-  active : Bool            -- `is_active()` is true (not switched off with PLUGIN_<NAME>=False)
-  order : Option Int       -- value of `order()`; `none` = Python `None`
+  importOk : Bool             -- module imports and has the class
+  ctorOk : Bool               -- the constructor returns
+  switch : Option PyVal       -- the value of PLUGIN_<NAME> as `is_active` reads it (`none` = Python None / not set)
+  order : Order
 deriving DecidableEq, Repr
 
-def Spec.loadable (s : Spec) : Bool := s.importOk && s.ctorOk && s.active
+/-- `is_active()` is true (a switch that cannot be read makes `is_active` raise: the loader skips the plugin) -/
+def Spec.active (s : Spec) : Bool := (isActive s.switch).getD false
 
-/-- `pl.order() or 0` -/
+def Spec.orderOk (s : Spec) : Bool := match s.order with | .value _ => true | .unusable => false
+
+/-- the loader keeps it: imports, constructs, is active and — when the order is read inside the per-plugin `try` —
+    has a usable order -/
+def Spec.loadable (s : Spec) : Bool := s.importOk && s.ctorOk && s.active && (s.orderOk || !orderGuarded)
+
+/-- the whole load fails: the order of a kept plugin cannot be used and is only looked at by the sort -/
+def loadRaises (specs : List Spec) : Bool := !orderGuarded && (specs.filter Spec.loadable).any (fun s => !s.orderOk)
+
+/-- `order() or 0` -/
 def Spec.key (s : Spec) : Int :=
   match s.order with
-  | some o => if o = 0 then orderNoneAs else o
-  | none => orderNoneAs
+  | .value (some o) => if o = 0 then orderNoneAs else o
+  | _ => orderNoneAs
 
 /-- "x may stay in front of y" in the direction the code sorts -/
 def before (x y : Spec) : Bool := if sortReverse then decide (y.key ≤ x.key) else decide (x.key ≤ y.key)
